@@ -188,6 +188,9 @@ func (m *model) ruleWorker(s *report.Sink) {
 				for _, a := range userAtoms(m.atomsOf(rcRoot)) {
 					atCall[a.String()] = true
 				}
+				for _, a := range userAtoms(m.atomsOf(rc.in)) {
+					atCall[a.String()] = true // inside a helper: what decides that the job is run at all
+				}
 				for _, a := range append(userAtoms(m.atomsOf(at)), lf.atoms...) {
 					if atCall[a.String()] {
 						continue
